@@ -26,9 +26,15 @@
    gnode_switch, gnode_relink, traversal (plain, and as a handler sees it: depth,
    early end, level order through mpt_gnode_samelevel / mpt_gnode_sublevel),
    node_find / node_next / node_locate from any node, the entry points called with a
-   NULL node, and the final clean-up (unlink + destroy of every node without parent). *)
+   NULL node, and the final clean-up (unlink + destroy of every node without parent).
+   The history language [hop] (C14/ParseModel.v) = every operation above ([HBase o],
+   [hstep h (HBase o)] IS [mstep h o]) + [HParse root ents ok] = mpt_parse_node
+   (mptcore/parse/parse_node.c) into node [root] with a text that denotes the trees
+   [ents] (ParseRefine.step_parse): the nodes of the text below a scratch node, then
+   adopt / merge + clear + adopt / leave alone / clear on error, scratch node released. *)
 From MptV Require Import C14.NodeModel C14.NodeSpec C14.NodeRep C14.NodeInv C14.NodeRefine
-  C14.NodeFree C14.NodeClone C14.NodeLevel C14.NodeHistory C14.NodeCheck C14.NodeEnd.
+  C14.NodeFree C14.NodeClone C14.NodeLevel C14.NodeHistory C14.NodeCheck C14.NodeEnd
+  C14.ParseModel C14.ParseSpec C14.ParseRefine.
 From Coq Require Import List ZArith.
 Import ListNotations.
 
@@ -38,21 +44,35 @@ Import ListNotations.
    are exactly those of the resulting forest — so link consistency, acyclicity and
    single reachability are preserved. *)
 Theorem C14_step_refines_forest :
-  forall o h s, inv h s ->
-    exists h', mstep h o = ROk (h', snd (sstep s o)) /\ inv h' (fst (sstep s o)).
-Proof. exact step_all. Qed.
+  forall (o : hop) h s, inv h s ->
+    exists h', hstep h o = ROk (h', snd (hsstep s o)) /\ inv h' (fst (hsstep s o)).
+Proof. exact hstep_all. Qed.
 
 (* ANY history: no step faults, every result equals the specification's, and after
    EVERY step the heap represents the specification's forest. *)
 Theorem C14_history_refines_forest :
-  forall ops h s, inv h s -> run_rel (mrun h ops) (srun s ops).
-Proof. exact history_refines. Qed.
+  forall (ops : list hop) h s, inv h s -> run_rel (hrun h ops) (hsrun s ops).
+Proof. exact hhistory_refines. Qed.
 
 (* Well-formedness (some forest is represented) is preserved by every operation and
    the step succeeds. *)
 Theorem C14_wf_preserved :
-  forall o h, wf h -> exists h' out, mstep h o = ROk (h', out) /\ wf h'.
-Proof. exact wf_step. Qed.
+  forall (o : hop) h, wf h -> exists h' out, hstep h o = ROk (h', out) /\ wf h'.
+Proof. exact hwf_step. Qed.
+
+(* mpt_parse_node by itself (the instance [HParse] of the theorems above, spelled out):
+   into ANY node of ANY represented state, for ANY parsed tree and either outcome of
+   the parser, the pointer model does not fault, answers 0 / an error, and its links
+   afterwards are exactly those of the forest [sparse] computes — the parsed list
+   adopted, merged with what was there (the superseded nodes released), or the forest
+   as before when nothing was parsed or the parser failed; every cell handed out in
+   the call (scratch node, nodes of the text) is in that forest once or freed once
+   ([inv], see C14_released_once). *)
+Theorem C14_parse_node_refines_forest :
+  forall root ents ok h s, inv h s ->
+    exists h', parse_node h root ents ok = ROk (h', snd (sparse s root ents ok)) /\
+               inv h' (fst (sparse s root ents ok)).
+Proof. exact step_parse. Qed.
 
 (* "Represents a forest" IS link consistency: every heap satisfying the invariant
    passes the explicit raw-link rules of [wfcheck] (NodeModel.v; the same rules the
@@ -235,7 +255,37 @@ Example C14_ex_refusals :
   = [OutP (Some 0); OutP (Some 1); OutZ 0%Z; OutP (Some 1); OutX].
 Proof. vm_compute. reflexivity. Qed.
 
+(* mpt_parse_node: first read into a childless node; a second text is merged (section b
+   exists: its new elements win, c of the old one is kept; option a superseded by an empty
+   section; old option c kept); a text without elements leaves the tree alone; a text
+   with an error builds three nodes and releases them again.  No stage is skipped: the
+   forests are the expected ones, the scratch cells 1, 8, 14, 15 are released. *)
+Definition ex_text1 := [PT 1 4 []; PT 2 0 [PT 3 4 []; PT 1 0 [PT 2 4 []]]; PT 3 4 []].
+Definition ex_text2 := [PT 2 0 [PT 1 0 [PT 1 4 []]; PT 2 4 []]; PT 1 0 []].
+Definition ex_parse : list hop :=
+  [HBase (ONew 3 0); HParse 0 ex_text1 true; HParse 0 ex_text2 true; HParse 0 [] true;
+   HParse 0 [PT 1 4 []; PT 2 0 [PT 1 4 []]] false; HBase OEnd].
+Example C14_ex_parse_forests :
+  map (fun x => (fst x, lists (snd x))) (firstn 5 (hsrun empty_sstate ex_parse)) =
+  [(OutP (Some 0), [[T 0 3 0 []]]);
+   (OutZ 0%Z, [[T 0 3 0 [T 2 1 4 []; T 3 2 0 [T 4 3 4 []; T 5 1 0 [T 6 2 4 []]]; T 7 3 4 []]]]);
+   (OutZ 0%Z, [[T 0 3 0 [T 9 2 0 [T 10 1 0 [T 11 1 4 []; T 6 2 4 []]; T 12 2 4 []; T 4 3 4 []]; T 13 1 0 []; T 7 3 4 []]]]);
+   (OutZ 0%Z, [[T 0 3 0 [T 9 2 0 [T 10 1 0 [T 11 1 4 []; T 6 2 4 []]; T 12 2 4 []; T 4 3 4 []]; T 13 1 0 []; T 7 3 4 []]]]);
+   (OutZ (-1)%Z, [[T 0 3 0 [T 9 2 0 [T 10 1 0 [T 11 1 4 []; T 6 2 4 []]; T 12 2 4 []; T 4 3 4 []]; T 13 1 0 []; T 7 3 4 []]]])].
+Proof. vm_compute. reflexivity. Qed.
+
+Example C14_ex_parse_model :
+  map (fun x => match x with Some (o, h) => Some (o, wfcheck h, freed h, nextid h) | None => None end)
+      (hrun empty_heap ex_parse) =
+  [Some (OutP (Some 0), true, [], 1); Some (OutZ 0%Z, true, [1], 8);
+   Some (OutZ 0%Z, true, [8; 3; 5; 2; 1], 14);
+   Some (OutZ 0%Z, true, [14; 8; 3; 5; 2; 1], 15);
+   Some (OutZ (-1)%Z, true, [15; 17; 18; 16; 14; 8; 3; 5; 2; 1], 19);
+   Some (OutZ 0%Z, true, [0; 7; 13; 9; 4; 12; 10; 6; 11; 15; 17; 18; 16; 14; 8; 3; 5; 2; 1], 19)].
+Proof. vm_compute. reflexivity. Qed.
+
 Print Assumptions C14_step_refines_forest.
+Print Assumptions C14_parse_node_refines_forest.
 Print Assumptions C14_history_refines_forest.
 Print Assumptions C14_wf_preserved.
 Print Assumptions C14_wf_links.
